@@ -220,8 +220,9 @@ class QGauss2(object):
 
         self.xgrid, self.ygrid = meshgrid(x, y)
 
-        wxgrid = ones((nx, ny)) * wx[newaxis, :]
-        wygrid = ones((nx, ny)) * wy[:, newaxis]
+        # meshgrid(x, y) gives arrays of shape (ny, nx)
+        wxgrid = ones((ny, nx)) * wx[newaxis, :]
+        wygrid = ones((ny, nx)) * wy[:, newaxis]
 
         self.wgrid = wxgrid * wygrid
 
